@@ -401,7 +401,7 @@ class Loops(object):
         saved_ghosts = getattr(fr, 'loop_ghosts', None)
         fr.loop_ghosts = dict(saved_ghosts or {}, **g)
         mark = ctx.next_rid
-        ctx.loop_guard.append((mark, set(r.rid for r, _ in mod_refs.values())))
+        ctx.loop_guard.append((mark, set(r.rid for r, _ in mod_refs.values()), '%s/%s/frame' % (fname, lid)))
         attr_before = dict(ctx.attr)
         try:
             try:
@@ -425,6 +425,7 @@ class Loops(object):
                 raise Unsupported('loop body writes attribute %r of an opaque object; list it in '
                                   'havoc_attrs' % k, node)
         check_inv('preserve', g2)
+        ctx.oblige('%s/%s/frame' % (fname, lid), Z.TRUE, 'K', node, note='loop frame: only the objects listed in modifies are stored into')
         self._end_path(ctx, fname, node)
 
     def _end_path(self, ctx, fname, node):
